@@ -199,11 +199,21 @@ class StringDataEncoding(DataEncoding):
                     self.byte_order = "mostSignificantByteFirst"
                 else:
                     raise ValueError("Byte order must be specified for multi-byte character encodings.")
+            else:
+                if byte_order not in ("leastSignificantByteFirst", "mostSignificantByteFirst"):
+                    raise ValueError("If specified, byte order must be one of `leastSignificantByteFirst`, "
+                                     "`mostSignificantByteFirst`.")
+                self.byte_order = byte_order
         else:
             self.byte_order = byte_order
             if self.byte_order and self.byte_order not in ("leastSignificantByteFirst", "mostSignificantByteFirst"):
                 raise ValueError("If specified, byte order must be one of `leastSignificantByteFirst`, "
                                  "`mostSignificantByteFirst`.")
+
+        # The Python codec used for decoding: UTF-16/UTF-32 without an explicit LE/BE suffix follow the declared byte order
+        self._python_codec = encoding
+        if encoding in ("UTF-16", "UTF-32"):
+            self._python_codec += "LE" if self.byte_order == "leastSignificantByteFirst" else "BE"
 
         if termination_character and leading_length_size:
             raise ValueError("Got both a termination character and a leading size for a string encoding.")
@@ -228,7 +238,7 @@ class StringDataEncoding(DataEncoding):
             # e.g. b'\x58' in utf-8 is "X"
             # b'\x21\00' in utf-16-le is "!"
             # b'\x00\x21' in utf-16-be is "!"
-            if len(self.termination_character.decode(encoding)) != 1:
+            if len(self.termination_character.decode(self._python_codec)) != 1:
                 raise ValueError(f"Termination character {termination_character} appears to be malformed. "
                                  f"Expected a hex string representation of a single character, e.g. '58' for "
                                  f"character 'X' in utf-8 or '5800' for character 'X' in utf-16-le. Note that "
@@ -330,17 +340,17 @@ class StringDataEncoding(DataEncoding):
             if strlen_bits % 8 != 0:
                 raise ValueError(f"String length (in bits) is {strlen_bits}, which is not a multiple of 8. "
                                  "This is an error since strings must be an integer numbers of bytes.")
-            parsed_string = raw_string_buffer.read_as_bytes(strlen_bits).decode(self.encoding)
+            parsed_string = raw_string_buffer.read_as_bytes(strlen_bits).decode(self._python_codec)
         elif self.termination_character is not None:
             try:
                 tchar_byte_index = raw_string_buffer.index(self.termination_character)
             except ValueError as exc:
                 raise ValueError(f"Reached the end of the raw string buffer {raw_string_buffer} without finding the "
                                  f"termination character {self.termination_character}") from exc
-            parsed_string = raw_string_buffer.read_as_bytes(tchar_byte_index * 8).decode(self.encoding)
+            parsed_string = raw_string_buffer.read_as_bytes(tchar_byte_index * 8).decode(self._python_codec)
         else:
             # Indicates there is no further parsing. The raw string value is the whole string value.
-            parsed_string = raw_string_buffer.decode(self.encoding)
+            parsed_string = raw_string_buffer.decode(self._python_codec)
 
         return common.StrParameter(parsed_string, bytes(raw_string_buffer))
 
@@ -453,6 +463,8 @@ class StringDataEncoding(DataEncoding):
         : ElementTree.Element
         """
         element = elmaker.StringDataEncoding(encoding=self.encoding)
+        if self.encoding in ("UTF-16", "UTF-32"):
+            element.attrib["byteOrder"] = self.byte_order  # from_xml requires it for these encodings
 
         if self.fixed_length:
             size_element = elmaker.SizeInBits(
